@@ -184,11 +184,11 @@ func parseObs(line string) (o obsFields, ok bool) {
 
 // eop is one Elk-level operation: code mutates/rebinds variable `x`; it may print one result line.
 type eop struct {
-	kind   string
-	code   func(x string, step int, L func(string) string) string
-	apply  func(m model) (result string) // updates the model; result "" if the operation prints nothing
-	arg    model                         // argument of + (to classify the shared-key length defect)
-	label  string
+	kind  string
+	code  func(x string, step int, L func(string) string) string
+	apply func(m model) (result string) // updates the model; result "" if the operation prints nothing
+	arg   model                         // argument of + (to classify the shared-key length defect)
+	label string
 }
 
 func (f *flavour) ops() []eop {
@@ -204,30 +204,40 @@ func (f *flavour) ops() []eop {
 			for v := 1; v <= 2; v++ {
 				ki, v := ki, v
 				ops = append(ops, eop{kind: "[]=", label: fmt.Sprintf("x[k%d]=%d", ki, v),
-					code:  func(x string, _ int, L func(string) string) string { return fmt.Sprintf("%s[%s] = %s", x, f.keys[ki], f.vals[v]) },
+					code: func(x string, _ int, L func(string) string) string {
+						return fmt.Sprintf("%s[%s] = %s", x, f.keys[ki], f.vals[v])
+					},
 					apply: func(m model) string { m[ki] = v; return "" }})
 			}
 		}
 		for _, g := range []model{{0: 2}, {1: 1, 2: 2}} {
 			g := g
 			ops = append(ops, eop{kind: "+", arg: g, label: "x=x+" + f.litAs(g, "map"),
-				code:  func(x string, _ int, L func(string) string) string { return fmt.Sprintf("%s = %s + %s", x, x, L(f.litAs(g, "map"))) },
+				code: func(x string, _ int, L func(string) string) string {
+					return fmt.Sprintf("%s = %s + %s", x, x, L(f.litAs(g, "map")))
+				},
 				apply: func(m model) string { mergeInto(m, g); return "" }})
 		}
 		g := model{0: 1, 3: 2}
 		ops = append(ops, eop{kind: "+", arg: g, label: "x=x+" + f.litAs(g, "record"),
-			code:  func(x string, _ int, L func(string) string) string { return fmt.Sprintf("%s = %s + %s", x, x, L(f.litAs(g, "record"))) },
+			code: func(x string, _ int, L func(string) string) string {
+				return fmt.Sprintf("%s = %s + %s", x, x, L(f.litAs(g, "record")))
+			},
 			apply: func(m model) string { mergeInto(m, g); return "" }})
 	case "record":
 		for _, g := range []model{{0: 1}, {0: 2}, {1: 2}, {1: 1, 2: 1}, {3: 1}} {
 			g := g
 			ops = append(ops, eop{kind: "+", arg: g, label: "x=x+" + f.litAs(g, "record"),
-				code:  func(x string, _ int, L func(string) string) string { return fmt.Sprintf("%s = %s + %s", x, x, L(f.litAs(g, "record"))) },
+				code: func(x string, _ int, L func(string) string) string {
+					return fmt.Sprintf("%s = %s + %s", x, x, L(f.litAs(g, "record")))
+				},
 				apply: func(m model) string { mergeInto(m, g); return "" }})
 		}
 		g := model{0: 2, 2: 2}
 		ops = append(ops, eop{kind: "+", arg: g, label: "x=x+" + f.litAs(g, "map"),
-			code:  func(x string, _ int, L func(string) string) string { return fmt.Sprintf("%s = %s + %s", x, x, L(f.litAs(g, "map"))) },
+			code: func(x string, _ int, L func(string) string) string {
+				return fmt.Sprintf("%s = %s + %s", x, x, L(f.litAs(g, "map")))
+			},
 			apply: func(m model) string { mergeInto(m, g); return "" }})
 	case "set":
 		for ki := 0; ki < f.nset; ki++ {
@@ -247,15 +257,21 @@ func (f *flavour) ops() []eop {
 			},
 			apply: func(m model) string { _, had := m[0]; m[0] = 1; return fmt.Sprintf("res=%v", !had) }})
 		ops = append(ops, eop{kind: "append", label: "x.append(k1,k2)",
-			code:  func(x string, _ int, L func(string) string) string { return fmt.Sprintf("%s.append(%s, %s)", x, f.keys[1], f.keys[2]) },
+			code: func(x string, _ int, L func(string) string) string {
+				return fmt.Sprintf("%s.append(%s, %s)", x, f.keys[1], f.keys[2])
+			},
 			apply: func(m model) string { m[1], m[2] = 1, 1; return "" }})
 		g := model{0: 1, 3: 1}
 		ops = append(ops, eop{kind: "|", label: "x=x|" + f.litAs(g, "set"),
-			code:  func(x string, _ int, L func(string) string) string { return fmt.Sprintf("%s = %s | %s", x, x, f.litAs(g, "set")) },
+			code: func(x string, _ int, L func(string) string) string {
+				return fmt.Sprintf("%s = %s | %s", x, x, f.litAs(g, "set"))
+			},
 			apply: func(m model) string { mergeInto(m, g); return "" }})
 		g2 := model{1: 1}
 		ops = append(ops, eop{kind: "+", label: "x=x+" + f.litAs(g2, "set"),
-			code:  func(x string, _ int, L func(string) string) string { return fmt.Sprintf("%s = %s + %s", x, x, f.litAs(g2, "set")) },
+			code: func(x string, _ int, L func(string) string) string {
+				return fmt.Sprintf("%s = %s + %s", x, x, f.litAs(g2, "set"))
+			},
 			apply: func(m model) string { mergeInto(m, g2); return "" }})
 	}
 	return ops
@@ -363,10 +379,10 @@ func runElkBatch(r *engine.R, f *flavour, ops []eop, items []elkItem, base int) 
 	isectArg := model{0: 1, 3: 1}
 	var progs []elkrun.Item
 	type exp struct {
-		lines []string // expected output lines
-		kinds []string // op kind responsible for each line
-		shared []int   // number of keys shared by the operands of + (0 otherwise)
-		desc  string
+		lines  []string // expected output lines
+		kinds  []string // op kind responsible for each line
+		shared []int    // number of keys shared by the operands of + (0 otherwise)
+		desc   string
 	}
 	var exps []exp
 	helpers := map[string]string{}
